@@ -228,6 +228,18 @@ def _apply_contract(eng, c, env, cl):
     try:
         for e in c.ensures:
             eng.assume(_ens(eng, e, post_env, fr, snap))
+        ghost_free_pre = not any(t in r for r in c.requires for t in ("den(", "den_as(", "bden(", "sden(", "opden", "all01", "andf", "orf", "xorf"))
+        if "a" in eng.facts.ghosts and ghost_free_pre and \
+           any(t in e for e in c.ensures for t in ("den(", "den_as(", "bden(", "sden(")):
+            # the contract was proved for an arbitrary assignment: it also holds at the second ghost assignment
+            eng.ghost = "a"
+            try:
+                for e in c.ensures:
+                    if any(t in e for t in ("den(", "den_as(", "bden(", "sden(", "mono_as(")) and \
+                       not any(t in e for t in ("opden", "andf", "orf", "xorf", "slackval", "xv(", "zv(", "isint", "old(bden", "old(den")):
+                        eng.assume(_ens(eng, e, post_env, fr, snap))
+            finally:
+                eng.ghost = "x"
     finally:
         eng.apply_w_stack.pop()
     if any("warned_unsat" in e for e in c.ensures):
